@@ -637,8 +637,23 @@ def mofstr(value, indent=MOF_INDENT, maxline=MAX_MOF_LINE, line_pos=0,
         # Split the string and output the next part
         split_pos = value.rfind(' ', 0, avl_len)
         if split_pos < 0:
-            # We have to split within a word
+            # We have to split within a word, but not within an escape
+            # sequence (backslash + character, or backslash + x + 4 hex digits)
             split_pos = avl_len - 1
+            esc_pos = 0
+            while esc_pos <= split_pos and esc_pos < len(value):
+                if value[esc_pos] == '\\':
+                    esc_len = 6 if value[esc_pos + 1:esc_pos + 2] in ('x', 'X') \
+                        else 2
+                    if esc_pos + esc_len - 1 > split_pos:
+                        # The escape sequence would be split: split before
+                        # it, or after it if it is at the begin of the part
+                        split_pos = esc_pos - 1 if esc_pos > 0 \
+                            else esc_pos + esc_len - 1
+                        break
+                    esc_pos += esc_len
+                else:
+                    esc_pos += 1
         part_value = value[0:split_pos + 1]
         value = value[split_pos + 1:]
         mof.append(quote_char)
